@@ -13,11 +13,12 @@ OpOK(e, n) ==
   /\ e.st = "ok" /\ e.note = ""
   /\ ToSet(e.paths) = n.paths /\ Len(e.paths) = Cardinality(n.paths)
   /\ ToSet(e.nest) = n.nest /\ Len(e.nest) = Cardinality(n.nest)
-  /\ e.valid = B(Valid(n))
-  /\ e.ndec = B(NewDecoderOK(n, -1, FALSE))
-  /\ e.ndecneg = B(NewDecoderOK(n, -2, FALSE))          \* a negative buffer limit is refused
-  /\ e.ndecnil = B(NewDecoderOK(n, -1, TRUE))           \* a nil filter is refused
-  /\ e.ndecopt = B(NewDecoderOK(n, 0, FALSE))
+  /\ MustBeValid(n) => e.valid = 1
+  /\ MustBeInvalid(n) => e.valid = 0
+  /\ e.ndec = e.valid                                    \* NewDecoder accepts exactly the definitions Validate accepts
+  /\ e.ndecneg = 0                                       \* a negative buffer limit is refused
+  /\ e.ndecnil = 0                                       \* a nil filter is refused
+  /\ e.ndecopt = e.valid
   /\ e.getok = B(GetRef(n, e.h, e.t).ok) /\ e.getnest = B(GetRef(n, e.h, e.t).nested)
 Step == /\ l <= Len(Trace)
         /\ LET e == Trace[l] IN
